@@ -18,6 +18,7 @@ const modulePath = "github.com/emicklei/go-restful/v3"
 
 // Program is the type-checked, SSA-converted build of the repository under analysis.
 type Program struct {
+	fieldStoreCache map[*types.Var][]*ssa.Store
 	Repo    string
 	Fset    *token.FileSet
 	Pkgs    []*packages.Package
